@@ -76,6 +76,10 @@ func compareFront(cli string, drv *Driver, dir, setup string) CaseReport {
 		rep.Cats = append(rep.Cats, cat)
 	}
 
+	if !model.DistinctFields {
+		// assumption of the covering theorem (Props/Cover.DistinctFields): field names of a struct are distinct
+		diff("facts", "the type table of this input has a struct with two fields of one name (assumption of Props/Cover violated)")
+	}
 	implErr := canonStderr(rep.CLI.Stderr, dir)
 	switch model.Status {
 	case "panic":
